@@ -8,7 +8,7 @@ from ..src import walk, calls, call_name, dotted, const, loc, unparse, norm, Anc
 from ..symx import SymExec, Opaque, State
 from ..peval import Evaluator, Lin, Obj, Unknown
 from .. import inpx
-from ..inpx import Conv, IO, UTIL, run_paths, reader_loop_body, find_convs, discriminators, placeholders, module_string, make_hook
+from ..inpx import Conv, IO, UTIL, find_convs, discriminators, placeholders, module_string, make_hook
 
 EXPLANATION = (
     "Cross-checking the sibling implementations InpFile._write_X / _read_X: every to_si/from_si site is followed through the abstract "
@@ -179,15 +179,92 @@ def writer_rows(repo, section, qual=None):
     return fn, drop_shadowed(list(rows.values()))
 
 
-def reader_rows(repo, section, qual=None, fn=None):
+class CompExec(SymExec):
+    """SymExec with two summaries that make the form of a dispatch / collection irrelevant:
+    * a list comprehension with one generator whose element converts units is summarised like a loop body executed once: [element];
+    * `if x in TABLE:` for an undecided x and a dict TABLE with string keys splits into one path per key (recorded as the condition
+      `x == 'key'`), and TABLE[x] on such a path is the entry of that key -- a lookup table behaves like the if/elif chain it replaces."""
+
+    def e_ListComp(self, n, st):
+        if len(n.generators) == 1 and not n.generators[0].ifs and any(isinstance(c, ast.Call) and call_name(c) in ("to_si", "from_si") for c in ast.walk(n.elt)):
+            sub = st.fork()
+            self.bind_loop_target(n.generators[0].target, sub)
+            return [self.ev(n.elt, sub)]
+        return SymExec.e_ListComp(self, n, st)
+
+    def branch(self, test, body, orelse, st):
+        if isinstance(test, ast.Compare) and len(test.ops) == 1 and isinstance(test.ops[0], ast.In) and isinstance(test.comparators[0], ast.Name) \
+                and isinstance(st.env.get(test.comparators[0].id), dict):
+            table = st.env[test.comparators[0].id]
+            left = self.ev(test.left, st)
+            if isinstance(left, Opaque) and table and all(isinstance(k, str) for k in table):
+                outs = []
+                for k in table:
+                    s2 = st.fork()
+                    s2.conds.append(("%s == %r" % (left.text, k), True))
+                    outs.extend(self.block(body, [s2]))
+                st.conds.append(("%s in %r" % (left.text, tuple(table)), False))
+                return outs + self.block(orelse, [st])
+        return SymExec.branch(self, test, body, orelse, st)
+
+    def e_Subscript(self, n, st):
+        if isinstance(n.value, ast.Name) and isinstance(st.env.get(n.value.id), dict):
+            table, key = st.env[n.value.id], self.ev(n.slice, st)
+            if isinstance(key, Opaque):
+                for t, v in reversed(st.conds):
+                    m = re.fullmatch(re.escape(key.text) + r" == '([^']*)'", t)
+                    if v and m and m.group(1) in table:
+                        return table[m.group(1)]
+        return SymExec.e_Subscript(self, n, st)
+
+
+def run_paths(repo, qual, env=None, hook_extra=None, body=None):
+    """symbolically execute InpFile.<qual> (or a given statement list) -> (fn, states, executor)."""
+    fn = repo.func(IO, qual) if isinstance(qual, str) else qual
+    ex = CompExec(call_hook=make_hook(hook_extra))
+    e = {a.arg: Opaque(a.arg) for a in fn.args.args}
+    e.update(env or {})
+    return fn, ex.block(body if body is not None else fn.body, [State(e)]), ex
+
+
+def reader_line_body(fn):
+    """the reader's per-line loop: -> (loop, statements before it, name of the variable holding the split line, statements of the body after
+    that variable is bound and the empty-line test).  The variable is recognised by what it is bound to (`<text>.split()`), not by its name."""
+    loops = [n for n in fn.body if isinstance(n, ast.For)]
+    if not loops:
+        raise ExtractError("%s: no per-line loop" % fn.name)
+    lp = loops[0]
+    body = list(lp.body)
+    tok, k = None, 0
+    for i, s in enumerate(body):
+        if isinstance(s, ast.Assign) and len(s.targets) == 1 and isinstance(s.targets[0], ast.Name) and isinstance(s.value, ast.Call) \
+                and isinstance(s.value.func, ast.Attribute) and s.value.func.attr == "split" and not s.value.args and not s.value.keywords:
+            tok, k = s.targets[0].id, i + 1
+    if tok is None:
+        # the split line is the loop variable itself (for lnum, current in <helper>(...)) or not split at top level
+        tok = "current"
+    # the empty-line guard: an `if` on the token list whose body only continues
+    if k < len(body) and isinstance(body[k], ast.If) and not body[k].orelse and all(isinstance(x, ast.Continue) for x in body[k].body) \
+            and tok in {x.id for x in ast.walk(body[k].test) if isinstance(x, ast.Name)}:
+        k += 1
+    pre = [s for s in fn.body if s.lineno < lp.lineno]
+    return lp, pre, tok, body[k:]
+
+
+def reader_paths(repo, section, qual=None, fn=None):
+    """abstract execution of the per-line loop body of InpFile._read_<section> with the split line bound to `current` -> (fn, path states)"""
     rf = fn or repo.func(IO, qual or ("InpFile._read_" + section))
-    lp, pre, head, body = reader_loop_body(rf)
-    ex = SymExec(call_hook=make_hook())
-    st = State({"self": Opaque("self"), "current": Opaque("current"), "line": Opaque("line"), "lnum": Opaque("lnum")})
+    lp, pre, tok, body = reader_line_body(rf)
+    ex = CompExec(call_hook=make_hook())
+    st = State({"self": Opaque("self"), "line": Opaque("line"), "lnum": Opaque("lnum")})
     st0 = ex.block(pre, [st])[0]
-    st0.env["current"] = Opaque("current")
+    st0.env[tok] = Opaque("current")          # canonical name of the split line in every text derived from it
     st0.done = False
-    outs = ex.block(body, [st0])
+    return rf, ex.block(body, [st0])
+
+
+def reader_rows(repo, section, qual=None, fn=None):
+    rf, outs = reader_paths(repo, section, qual, fn)
     rows = {}
     for o in outs:
         d, neg = discriminators(o.conds)
@@ -356,9 +433,10 @@ def _line_events(repo, o):
         yield fmt, args, {cols[k]: v for k, v in list(enumerate(args)) + list(kw.items()) if k in cols}
 
 
-def option_labels(repo, wo, version):
-    """keywords of the [OPTIONS] lines _write_options can write for the given INP version (first format argument or leading literal of the format)"""
-    labs = set()
+def option_lines(repo, wo, version):
+    """[(keyword, format arguments)] of the [OPTIONS] lines _write_options can write for the given INP version (keyword = first format
+    argument or leading literal of the format string), over all paths"""
+    out = []
     for o in _exec_with(repo, wo, {"version": version}):
         for fmt, args, vals in _line_events(repo, o):
             lab = args[0] if args and isinstance(args[0], str) else None
@@ -366,8 +444,24 @@ def option_labels(repo, wo, version):
                 m = re.match(r"\s*([A-Za-z][A-Za-z ]*[A-Za-z])\s", fmt)
                 lab = m.group(1) if m else None
             if lab and re.fullmatch(r"[A-Za-z][A-Za-z ]*", lab.strip()):
-                labs.add(lab.strip().upper())
-    return labs
+                out.append((lab.strip().upper(), args))
+    return out
+
+
+def option_reader_convs(repo, ro):
+    """option attribute -> {(direction, param, index of the converted token, keywords true on the path)} for every converted value _read_options stores"""
+    fn, outs, ex = run_paths(repo, ro)
+    res = {}
+    for o in outs:
+        if o.raised:
+            continue
+        d, neg = discriminators(o.conds)
+        toks = frozenset(t for c in d for t in c)
+        for e in o.events:
+            if e[0] == "store":
+                for c, p in find_convs(e[2]):
+                    res.setdefault(e[1].split(".")[-1], set()).add((c.direction, c.param, c.value.key if isinstance(c.value, Opaque) else None, toks))
+    return res
 
 
 def tank_lines(repo, wt, version):
@@ -387,6 +481,41 @@ def tank_lines(repo, wt, version):
     if not out:
         raise ExtractError("_write_tanks: no data line with a curve column found (version %s)" % version)
     return out
+
+
+# ------------------------------------------------------------------ concrete run of a section writer on a mock model
+class _Mock(object):
+    _sa_mock = True
+
+    def __init__(self, **kw):
+        self.__dict__.update(kw)
+
+
+class _MockFile(_Mock):
+    def __init__(self):
+        self.chunks = []
+
+    def write(self, b):
+        self.chunks.append(b.decode("utf-8") if isinstance(b, bytes) else str(b))
+
+
+def concrete_demand_lines(repo, ndem, cat):
+    """the [DEMANDS] data lines InpFile._write_demands writes for a junction 'J1' with ndem demands, the first of category cat"""
+    from ..concrete import World, Namespace, stdlib_overrides, ProgramError
+    ov, _state = stdlib_overrides()
+    ov["sys"] = Namespace("sys", getdefaultencoding=lambda: "utf-8", version_info=(3, 10), platform="linux")
+    ov["wntr.epanet.util.from_si"] = lambda fu, v, p, *a, **k: v          # the unit is not the subject here
+    world = World(repo, ov)
+    dem = [_Mock(category=(cat if i == 0 else None), base_value=1.0 + i, pattern_name=None) for i in range(ndem)]
+    junction = _Mock(demand_timeseries_list=dem, name="J1")
+    wn = _Mock(junction_name_list=["J1"], pattern_name_list=[], get_node=lambda n: junction, nodes={"J1": junction})
+    f = _MockFile()
+    try:
+        inp = world.interp.call(world.function(IO, "InpFile"), [], {})
+        world.interp.call(world.interp.getattr_(inp, "_write_demands"), [f, wn], {})
+    except ProgramError as e:
+        raise ExtractError("_write_demands could not be run on the mock model: %s" % e)
+    return [l for l in "".join(f.chunks).splitlines() if l.split() and l.split()[0] == "J1"]
 
 
 def run(repo, chk):
@@ -439,34 +568,37 @@ def run(repo, chk):
                     chk.note("[%s] reader conversion %r (column %s, %s) has no writer counterpart (field not written)" % (sec.upper(), r.conv, r.col, sorted(r.disc)))
     chk.floor("R-C12-2", 30, count=matched)
 
-    # curves: writer by curve type, readers via add_curve(name, TYPE, points)
+    # curves: writer by curve type, readers via add_curve(name, TYPE, points); a point coordinate is identified by its index in the
+    # (x, y) pair, whatever the loop variable is called and whether the points are collected by a loop or a comprehension
+    def coord(v):
+        v = v.value if isinstance(v, Conv) else v
+        return v.key if isinstance(v, Opaque) and isinstance(v.key, int) and not isinstance(v.key, bool) else None
     wf, W = writer_rows(repo, "curves")
     wcur = {}
     for w in W:
-        if w.conv is not None:
+        if w.conv is not None and coord(w.conv) is not None:
             t = [x for x in w.disc if x in ("VOLUME", "HEAD", "EFFICIENCY", "HEADLOSS")]
             if t:
-                wcur[(t[0], w.conv.vtext())] = w
+                wcur[(t[0], "point[%d]" % coord(w.conv))] = w
     rcur = {}
-    readers = [("tanks", None), ("valves", None), ("energy", None)]
-    for sec, _ in readers:
-        rf, R = reader_rows(repo, sec)
-        for r in R:
-            if r.conv is not None and r.sink and "add_curve" in r.sink:
-                pass
-    # direct AST pass for add_curve sites (incl. the nested create_curve of _read_pumps)
     for qual in ("InpFile._read_tanks", "InpFile._read_pumps", "InpFile._read_valves", "InpFile._read_energy"):
         fn = repo.func(IO, qual)
-        for c in [x for x in ast.walk(fn) if isinstance(x, ast.Call) and last_attr(x) == "add_curve" and len(x.args) >= 3]:
-            ctype = const(c.args[1])
-            scope = c
-            while scope is not None and not isinstance(scope, (ast.If, ast.FunctionDef)):
-                scope = getattr(scope, "_parent", None)
-            for s in ast.walk(scope):
-                if isinstance(s, ast.Assign) and isinstance(s.value, ast.Call) and call_name(s.value) in ("to_si", "from_si") and len(s.value.args) >= 3 and unparse(s.value.args[1]).startswith("point["):
-                    rcur[(ctype, unparse(s.value.args[1]))] = Conv(call_name(s.value), Opaque(unparse(s.value.args[1])), unparse(s.value.args[2]), {}, s.lineno)
-                elif isinstance(s, ast.Assign) and unparse(s.value).startswith("point[") and dotted(s.targets[0]) in ("x", "y"):
-                    rcur.setdefault((ctype, unparse(s.value)), None)
+        chk.fn(fn)
+        states = list(reader_paths(repo, None, fn=fn)[1])
+        for sub in [n for n in ast.walk(fn) if isinstance(n, ast.FunctionDef) and n is not fn]:      # e.g. the create_curve closure of _read_pumps
+            states += CompExec(call_hook=make_hook()).run(sub)
+        for o in states:
+            for e in o.events:
+                if e[0] != "call" or (e[2][0] or "").split(".")[-1] != "add_curve" or len(e[2][1]) < 3 or not isinstance(e[2][1][1], str):
+                    continue
+                ctype, pts = e[2][1][1], e[2][1][2]
+                for pt in (pts if isinstance(pts, list) else []):
+                    for v in (pt if isinstance(pt, (tuple, list)) else []):
+                        if coord(v) is not None:
+                            if isinstance(v, Conv):
+                                rcur[(ctype, "point[%d]" % coord(v))] = v
+                            else:
+                                rcur.setdefault((ctype, "point[%d]" % coord(v)), None)
     for (ctype, pt), w in sorted(wcur.items()):
         r = rcur.get((ctype, pt))
         if r is None:
@@ -498,29 +630,24 @@ def run(repo, chk):
                     for k, v in [(i, a) for i, a in enumerate(args)] + list(kw.items()):
                         if isinstance(v, Opaque) and v.text.endswith("." + disc_attr):
                             wcol = cols.get(k) if cols else k
+        # the reader's tests as the path conditions of its abstract execution (locals are substituted by what they hold): the column(s)
+        # of `current` that are compared with the type keywords
         rcols = set()
-        for n in walk(rf):
-            if isinstance(n, ast.Compare):
-                t = unparse(n)
-                lits = {x.upper() for x in re.findall(r"'([A-Za-z]+)'", t)}
-                m = re.search(r"current\[(\d+)\]", unparse(n.left))
-                if m and lits & tokens:
-                    rcols.add(int(m.group(1)))
-            if isinstance(n, ast.Assign) and dotted(n.targets[0]) == disc_attr:
-                m = re.search(r"current\[(\d+)\]", unparse(n.value))
-                if m:
-                    rcols.add(int(m.group(1)))
+        for o in reader_paths(repo, sec)[1]:
+            for t, v in o.conds:
+                if {x.upper() for x in re.findall(r"'([A-Za-z]+)'", t)} & tokens:
+                    rcols.update(int(x) for x in re.findall(r"current\[(\d+)\]", t))
         chk.expect(wcol is not None and rcols == {wcol}, "R-C12-3", "[%s] the reader selects the conversion by the column the writer prints the %s in" % (sec.upper(), disc_attr), loc(rf),
                    "testing another column (e.g. the node name) for the type keyword applies the wrong unit conversion", expected="column %s" % wcol, found="column(s) %s" % sorted(rcols))
-    # quality parameter discriminator is an option on both sides
-    for side, q in (("write", "InpFile._write_quality"), ("read", "InpFile._read_quality")):
+    # quality parameter discriminator is an option on both sides (path conditions of the abstract execution of both)
+    for side, q, outs_ in (("write", "InpFile._write_quality", run_paths(repo, "InpFile._write_quality")[1]), ("read", "InpFile._read_quality", reader_paths(repo, "quality")[1])):
         f = repo.func(IO, q)
-        chk.expect("options.quality.parameter == 'CHEMICAL'" in unparse(f) and "options.quality.parameter == 'AGE'" in unparse(f), "R-C12-3", "[QUALITY] %s selects the unit by options.quality.parameter" % side, loc(f))
+        toks = {x.upper() for o in outs_ for t, v in o.conds if "options.quality.parameter" in t for x in re.findall(r"'([A-Za-z]+)'", t)}
+        chk.expect({"CHEMICAL", "AGE"} <= toks, "R-C12-3", "[QUALITY] %s selects the unit by options.quality.parameter" % side, loc(f), found=sorted(toks))
 
     # ---------------------------------------------------------------- R-C12-4 order dependence
     rf = repo.func(IO, "InpFile._read_reactions")
     wf = repo.func(IO, "InpFile._write_reactions")
-    dep = {}   # keyword written -> option flags its reader conversion depends on
     W, R = allrows["reactions"]
     needs = set()
     for r in R:
@@ -528,26 +655,37 @@ def run(repo, chk):
             m = re.search(r"options\.reaction\.(\w+_order)", v)
             if m:
                 needs.add(m.group(1))
-    # line numbers of the writer's ORDER lines and of its coefficient lines
-    order_lines = {}
-    coeff_lines = []
-    for c in calls(wf, attr="format"):
-        a0 = const(c.args[0]) if c.args else None
-        if a0 == "ORDER" and len(c.args) >= 3:
-            m = re.search(r"options\.reaction\.(\w+_order)", unparse(c.args[2]))
-            if m:
-                order_lines[m.group(1)] = c.lineno
-        elif c.args and any(isinstance(x, ast.Call) and call_name(x) in ("from_si", "to_si") for x in c.args):
-            conv = [x for x in c.args if isinstance(x, ast.Call) and call_name(x) in ("from_si", "to_si")][0]
-            m = re.search(r"options\.reaction\.(\w+_order)", unparse(conv))
-            if m:
-                coeff_lines.append((c.lineno, m.group(1), a0))
-    for ln, order, kw in coeff_lines:
-        chk.expect(order in order_lines and order_lines[order] < ln, "R-C12-4", "[REACTIONS] the %s line is written after the ORDER line its conversion depends on (%s)" % (kw, order), "%s:%d" % (IO, ln),
+    # on every path of the writer, in the order the lines are written: the ORDER lines announced so far when a coefficient line is written
+    announced_any = set()
+    coeff = {}      # (keyword, order) -> [ok on every path, line]
+    for o in run_paths(repo, wf)[1]:
+        if o.raised:
+            continue
+        announced = set()
+        for e in o.events:
+            if e[0] != "format":
+                continue
+            args, kw = e[2]
+            vals = list(args) + list(kw.values())
+            strs = [a_ for a_ in vals if isinstance(a_, str)]
+            if "ORDER" in [x.upper() for x in strs]:
+                for a_ in vals:
+                    m = re.search(r"options\.reaction\.(\w+_order)$", a_.text) if isinstance(a_, Opaque) else None
+                    if m:
+                        announced.add(m.group(1))
+                        announced_any.add(m.group(1))
+                continue
+            for c, p_ in find_convs(vals):
+                m = re.search(r"options\.reaction\.(\w+_order)", c.flags.get("reaction_order", ""))
+                if m:
+                    ent = coeff.setdefault((strs[0] if strs else "?", m.group(1)), [True, c.lineno])
+                    ent[0] = ent[0] and m.group(1) in announced
+    for (kw, order), (ok_, ln) in sorted(coeff.items()):
+        chk.expect(ok_, "R-C12-4", "[REACTIONS] the %s line is written after the ORDER line its conversion depends on (%s)" % (kw, order), "%s:%d" % (IO, ln),
                    "the reader converts each coefficient with the reaction order it has parsed SO FAR; a coefficient written before its ORDER line is read back with the default order",
-                   expected="ORDER %s line first" % order, found="ORDER at line %s, %s coefficient at line %d" % (order_lines.get(order), kw, ln))
+                   expected="ORDER %s line first" % order, found="a path writes the %s coefficient before (or without) the ORDER line of %s" % (kw, order))
     chk.floor("R-C12-4", 4)
-    chk.expect(needs <= set(order_lines), "R-C12-4", "[REACTIONS] every order the reader's conversions depend on is written", loc(wf), found=(sorted(needs), sorted(order_lines)))
+    chk.expect(needs <= announced_any, "R-C12-4", "[REACTIONS] every order the reader's conversions depend on is written", loc(wf), found=(sorted(needs), sorted(announced_any)))
 
     # ---------------------------------------------------------------- controls
     # Whole-function abstract execution of the writer and of the reader (helpers the setting / threshold is computed in -- a nested def,
@@ -717,7 +855,8 @@ def run(repo, chk):
     wo = repo.func(IO, "InpFile._write_options")
     wt = repo.func(IO, "InpFile._write_tanks")
     chk.fn(wo, wt)
-    lab20, lab22 = option_labels(repo, wo, 2.0), option_labels(repo, wo, 2.2)
+    ol20, ol22 = option_lines(repo, wo, 2.0), option_lines(repo, wo, 2.2)
+    lab20, lab22 = {l for l, a_ in ol20}, {l for l, a_ in ol22}
     want_g = {"HEADERROR", "FLOWCHANGE", "DEMAND MODEL", "MINIMUM PRESSURE", "REQUIRED PRESSURE", "PRESSURE EXPONENT"}
     chk.expect(lab22 - lab20 == want_g and lab20 <= lab22 and len(lab20) >= 10, "R-C12-6", "only the EPANET 2.2-specific options are omitted from 2.0-format files", loc(wo),
                expected=sorted(want_g), found="2.2 only: %s; 2.0 only: %s" % (sorted(lab22 - lab20), sorted(lab20 - lab22)))
@@ -733,10 +872,15 @@ def run(repo, chk):
 
     # ---------------------------------------------------------------- R-C12-5 pressure options
     ro = repo.func(IO, "InpFile._read_options")
+    chk.fn(ro)
+    rconv = option_reader_convs(repo, ro)
     for key, attr in (("MINIMUM PRESSURE", "minimum_pressure"), ("REQUIRED PRESSURE", "required_pressure")):
-        w_ok = re.search(r"from_si\(self\.flow_units, wn\.options\.hydraulic\.%s, HydParam\.Pressure\)" % attr, unparse(wo)) is not None
-        r_ok = re.search(r"%s = to_si\(self\.flow_units, float\(words\[2\]\), HydParam\.Pressure\)\s*opts\.hydraulic\.%s = %s" % (attr, attr, attr), unparse(ro)) is not None
-        chk.expect(w_ok and r_ok, "R-C12-5", "[OPTIONS] %s is written with from_si(Pressure) and read with to_si(Pressure)" % key, loc(wo), found=(w_ok, r_ok))
+        wcs = [c for l, a_ in ol22 if l == key for c, p_ in find_convs(a_)]
+        w_ok = bool(wcs) and all(c.direction == "from_si" and pclass(classes, c.param) == classes["HydParam.Pressure"] and c.vtext().endswith("hydraulic." + attr) for c in wcs)
+        rcs = rconv.get(attr, set())
+        r_ok = bool(rcs) and all(d_ == "to_si" and pclass(classes, p_) == classes["HydParam.Pressure"] and k_ == len(key.split()) and key.split()[0] in t_ for d_, p_, k_, t_ in rcs)
+        chk.expect(w_ok and r_ok, "R-C12-5", "[OPTIONS] %s is written with from_si(Pressure) and read with to_si(Pressure)" % key, loc(wo),
+                   found=("writer %s" % sorted(map(repr, wcs)), "reader %s" % sorted((d_, p_, k_) for d_, p_, k_, t_ in rcs)))
 
     # ---------------------------------------------------------------- R-C12-7 time helpers
     s2s = repo.func(IO, "_sec_to_string")
@@ -770,7 +914,7 @@ def run(repo, chk):
     chk.expect(bad is None, "R-C12-7", "_str_time_to_sec weighs hours by 3600 and minutes by 60 (HH:MM:SS, HH:MM, HH)", loc(t2s),
                expected=bad[2] if bad else None, found=("%r reads as %s" % (bad[0], bad[1])) if bad else None)
     # simple time controls: the token written for `AT TIME t` reads back as t for every whole second
-    from ._shared import control_time_round_trip, rule_clock_round_trip
+    from ._shared import control_time_round_trip, rule_clock_round_trip, forced
     rows_, wcf, rcf = control_time_round_trip(repo)
     chk.fn(wcf, rcf)
     chk.sample({"rule": "R-C12-8", "time_control_round_trip": [(t, tok, back) for t, tok, back in rows_[:8]]})
@@ -791,62 +935,43 @@ def run(repo, chk):
     wfn = repo.func(IO, "InpFile.write")
     wopt = repo.func(IO, "InpFile._write_options")
     chk.fn(wfn, wopt)
-    announces = [c for c in calls(wopt) if "'QUALITY'" in unparse(c) and "inpfile_units" in unparse(c)]
-    if not announces:
+    def argtexts(args):
+        return [x.text if isinstance(x, Opaque) else str(x) for x in args]
+    if not any(l == "QUALITY" and any(t.endswith("quality.inpfile_units") for t in argtexts(a_)) for l, a_ in ol22):
         raise ExtractError("_write_options: QUALITY line with the mass units not found")
-    # names that carry options.quality.inpfile_units inside write()
-    carriers = {"wn.options.quality.inpfile_units"}
-    for a in walk(wfn):
-        if isinstance(a, ast.Assign) and isinstance(a.targets[0], ast.Name) and "options.quality.inpfile_units" in unparse(a.value):
-            carriers.add(a.targets[0].id)
-    mu = [a for a in walk(wfn) if isinstance(a, ast.Assign) and unparse(a.targets[0]) == "self.mass_units"]
-    from_opt = [a for a in mu if any(c in unparse(a.value) for c in carriers)]
-    # ... and that assignment is not conditional on self.mass_units being unset (a reader that ran before must not win over the option)
-    def guarded_by_unset(a):
-        q = a
-        while q is not None and q is not wfn:
-            pq = getattr(q, "_parent", None)
-            if isinstance(pq, ast.If) and q in pq.body and "self.mass_units is None" in unparse(pq.test):
-                return True
-            q = pq
-        return False
-    chk.expect(bool(from_opt) and not all(guarded_by_unset(a) for a in from_opt), "R-C12-9",
+    # abstract execution of write(): which values are stored to self.mass_units / self.flow_units on which paths (temporaries are followed)
+    wex = SymExec(call_hook=make_hook(), inline=inline_table(repo, wfn))
+    mu_stores, fu_stores = [], []
+    for o in wex.run(wfn):
+        for e in o.events:
+            if e[0] == "store" and e[1] in ("self.mass_units", "self.flow_units"):
+                txt = wex.text(e[2])
+                # ... an assignment that only happens when self.mass_units is still unset does not count (a reader that ran before must not win over the option)
+                cd = dict(o.conds)
+                unset = forced("self.mass_units is None", cd) is True or forced("self.mass_units is not None", cd) is False or forced("self.mass_units", cd) is False
+                (mu_stores if e[1] == "self.mass_units" else fu_stores).append((txt, unset))
+    from_opt = [u for t, u in mu_stores if "options.quality.inpfile_units" in t]
+    chk.expect(bool(from_opt) and not all(from_opt), "R-C12-9",
                "the mass unit the writer converts concentrations with is taken from options.quality.inpfile_units, which the QUALITY line announces", loc(wfn),
                "the [OPTIONS] QUALITY line prints options.quality.inpfile_units while the conversions use self.mass_units: if the two have different sources a ug/L model is "
-               "written with mg/L numbers and read back 1000 times too small", expected="self.mass_units = f(wn.options.quality.inpfile_units)", found=[norm(a) for a in mu])
-    fu_src = [a for a in walk(wfn) if isinstance(a, ast.Assign) and unparse(a.targets[0]) == "self.flow_units"]
-    chk.expect(any("options.hydraulic.inpfile_units" in unparse(a.value) or any(isinstance(x, ast.Name) and x.id == "units" for x in ast.walk(a.value)) for a in fu_src), "R-C12-9",
-               "the flow unit system the writer converts with comes from the `units` argument / options.hydraulic.inpfile_units", loc(wfn))
-    uo = [c for c in calls(wopt) if "'UNITS'" in unparse(c)]
-    chk.expect(bool(uo) and "self.flow_units.name" in unparse(uo[0]), "R-C12-9", "the UNITS line announces the flow unit system the writer converts with", loc(wopt), found=[norm(c) for c in uo])
+               "written with mg/L numbers and read back 1000 times too small", expected="self.mass_units = f(wn.options.quality.inpfile_units)", found=sorted({t for t, u in mu_stores}))
+    chk.expect(any("options.hydraulic.inpfile_units" in t or re.search(r"\bunits\b", t.replace("inpfile_units", "")) for t, u in fu_stores), "R-C12-9",
+               "the flow unit system the writer converts with comes from the `units` argument / options.hydraulic.inpfile_units", loc(wfn), found=sorted({t for t, u in fu_stores}))
+    uo = [argtexts(a_) for l, a_ in ol22 if l == "UNITS"]
+    chk.expect(bool(uo) and all(any(t.startswith("self.flow_units") for t in a_) for a_ in uo), "R-C12-9", "the UNITS line announces the flow unit system the writer converts with", loc(wopt), found=uo[:2])
 
     # ---------------------------------------------------------------- R-C12-10 every demand entry's category is written
     wdm = repo.func(IO, "InpFile._write_demands")
     chk.fn(wdm)
-    gd = [n for n in walk(wdm) if isinstance(n, ast.If) and "len(demands)" in unparse(n.test)]
-    if not gd:
-        raise ExtractError("_write_demands: guard on the number of demands not found")
-    from ..peval import Evaluator as _Ev, Obj as _Obj, Unknown as _Unk
-
-    class _E(_Ev):
-        def e_Subscript(self, n):
-            return self.ev(n.value)[self.ev(n.slice)]
-
-    def _hk(name, n, ev):
-        if name == "len":
-            return len(ev.ev(n.args[0]))
-        return NotImplemented
+    # the writer is RUN (sa/concrete.py: tree-walking evaluator over the parsed source, nothing is imported) on a mock model with one
+    # junction; what counts is which lines reach the file, not how the guard is written
     for ndem, cat in ((1, None), (1, "fire"), (2, None), (2, "fire")):
-        demands = [_Obj("d%d" % i, {"category": cat if i == 0 else None, "base_value": 1.0, "pattern_name": None}) for i in range(ndem)]
-        try:
-            e = _E({"demands": demands}, None, _hk)
-            written = bool(e.truth(e.ev(gd[0].test)))
-        except _Unk as ex:
-            raise ExtractError("_write_demands guard not evaluable: %s" % ex)
+        lines = concrete_demand_lines(repo, ndem, cat)
         must = ndem > 1 or cat is not None
-        chk.expect(written or not must, "R-C12-10", "a junction with %d demand(s), first category %r, gets its [DEMANDS] lines" % (ndem, cat), loc(wdm, gd[0]),
+        ok_ = (not must) or (len(lines) == ndem and (cat is None or cat in lines[0]))
+        chk.expect(ok_, "R-C12-10", "a junction with %d demand(s), first category %r, gets its [DEMANDS] lines" % (ndem, cat), loc(wdm),
                    "the [JUNCTIONS] line has no place for a demand category: a junction whose only demand has a category must be written to [DEMANDS] or the category is lost",
-                   expected="written", found="skipped by `%s`" % unparse(gd[0].test))
+                   expected="%d line(s)%s" % (ndem, ", the first with category %s" % cat if cat else ""), found=lines)
 
     # ---------------------------------------------------------------- R-C12-11 rule conditions: grouping of AND / OR
     acc = repo.func(IO, "_EpanetRule.add_control_condition")
